@@ -235,7 +235,7 @@ structure CallRes where
   deriving Inhabited
 
 inductive Req
-  | call (k : CallKind) (addr : Nat) (value : Word) (input : BA) (gas : Nat) (retOff retSize : Nat)
+  | call (k : CallKind) (addr : Nat) (value : Word) (input : BA) (gas : Nat) (retOff retSize : Nat) (inOff : Nat)
   | create (salt : Option Word) (value : Word) (init : BA) (gas : Nat)
   deriving Inhabited
 
@@ -486,26 +486,26 @@ def execOp (cx : Ctx) (ro : Bool) (e : Exec) (fr : Frame) (args : List Word) (g 
     | [_, addr, value, inOff, inSize, retOff, retSize] =>
       let args := memRead fr.mem (lo64 inOff) (lo64 inSize)
       let gas := if value ≠ 0 then wadd callGasTemp 2300 else callGasTemp
-      .invoke (.call .call (addrOf addr) value args gas (lo64 retOff) (lo64 retSize)) 0 g
+      .invoke (.call .call (addrOf addr) value args gas (lo64 retOff) (lo64 retSize) (lo64 inOff)) 0 g
     | _ => bug
   | .call .callcode =>
     match args with
     | [_, addr, value, inOff, inSize, retOff, retSize] =>
       let args := memRead fr.mem (lo64 inOff) (lo64 inSize)
       let gas := if value ≠ 0 then wadd callGasTemp 2300 else callGasTemp
-      .invoke (.call .callcode (addrOf addr) value args gas (lo64 retOff) (lo64 retSize)) 0 g
+      .invoke (.call .callcode (addrOf addr) value args gas (lo64 retOff) (lo64 retSize) (lo64 inOff)) 0 g
     | _ => bug
   | .call .delegatecall =>
     match args with
     | [_, addr, inOff, inSize, retOff, retSize] =>
       let args := memRead fr.mem (lo64 inOff) (lo64 inSize)
-      .invoke (.call .delegatecall (addrOf addr) 0 args callGasTemp (lo64 retOff) (lo64 retSize)) 0 g
+      .invoke (.call .delegatecall (addrOf addr) 0 args callGasTemp (lo64 retOff) (lo64 retSize) (lo64 inOff)) 0 g
     | _ => bug
   | .call .staticcall =>
     match args with
     | [_, addr, inOff, inSize, retOff, retSize] =>
       let args := memRead fr.mem (lo64 inOff) (lo64 inSize)
-      .invoke (.call .staticcall (addrOf addr) 0 args callGasTemp (lo64 retOff) (lo64 retSize)) 0 g
+      .invoke (.call .staticcall (addrOf addr) 0 args callGasTemp (lo64 retOff) (lo64 retSize) (lo64 inOff)) 0 g
     | _ => bug
   | .ret =>
     match args with
@@ -640,7 +640,7 @@ def runPrecompile (addr : Nat) (input : BA) (gas : Nat) (g : Global) : CallRes :
   let cost := precompileGas addr input
   if gas < cost then ⟨#[], 0, some .outOfGas, g, 0⟩ else
   match g.ask ("pc:" ++ hexAddr addr ++ ":" ++ hexBA input) with
-  | none => ⟨#[], 0, some (.desync "pc"), g, 0⟩
+  | none => ⟨#[], 0, some (.desync ("pc:" ++ hexAddr addr ++ ":" ++ hexBA input)), g, 0⟩
   | some (a, g') =>
     if a.startsWith "ok:" then
       match unhex? (String.ofList (a.toList.drop 3)) with
@@ -871,7 +871,7 @@ def evmCreate (cx : Ctx) (run : Runner) (depth : Nat) (ro : Bool) (callerSelf : 
 /-- dispatch of an `ExecOut.invoke` -/
 def doInvoke (cx : Ctx) (run : Runner) (depth : Nat) (ro : Bool) (fr : Frame) (r : Req) (g : Global) : CallRes :=
   match r with
-  | .call k addr value input gas _ _ =>
+  | .call k addr value input gas _ _ _ =>
     evmCall run depth ro k fr.self fr.caller fr.value addr value input gas g
   | .create salt value init gas =>
     evmCreate cx run depth ro fr.self salt value init gas g
@@ -879,10 +879,14 @@ def doInvoke (cx : Ctx) (run : Runner) (depth : Nat) (ro : Bool) (fr : Frame) (r
 /-- what `opCall…`/`opCreate…` do with the callee's result -/
 def resume (fr : Frame) (r : Req) (cr : CallRes) : Frame × BA :=
   match r with
-  | .call _ _ _ _ _ retOff retSize =>
+  | .call _ addr _ input _ retOff retSize inOff =>
     let flag : Word := if cr.err.isSome then 0 else 1
     let mem := if cr.err.isNone ∨ cr.err = some .reverted then memWrite fr.mem retOff retSize cr.ret else fr.mem
-    ({ fr with stack := flag :: fr.stack, mem := mem, gas := wadd fr.gas cr.gas }, cr.ret)
+    -- the identity precompile returns its input slice itself (`dataCopy.Run: return in`), which
+    -- aliases the caller's memory: `returnData` is copied only after the result was written
+    -- back at `retOffset`, so it sees that write where the two windows overlap
+    let res := if addr = 4 ∧ cr.err.isNone ∧ input.size > 0 then memRead mem inOff input.size else cr.ret
+    ({ fr with stack := flag :: fr.stack, mem := mem, gas := wadd fr.gas cr.gas }, res)
   | .create _ _ _ _ =>
     let w : Word := if cr.err.isSome then 0 else cr.addr
     ({ fr with stack := w :: fr.stack, gas := wadd fr.gas cr.gas },
